@@ -164,6 +164,32 @@ var deformations = []deformation{
 		}
 		return src + nl + "var deformBlob = \"" + strings.Repeat("y", 66000+rapid.IntRange(0, 9000).Draw(rt, label+"len")) + "\"" + nl + nl + "func deformAfterBlob() string { return deformBlob }" + nl
 	}},
+	{"many-lines", func(rt *rapid.T, src, label string) string {
+		// more than a thousand lines, most of them equal to their neighbours
+		// but one, and the same run of lines before the first function too
+		if strings.Contains(src, "deformMany") {
+			return src
+		}
+		nl := "\n"
+		if strings.Contains(src, "\r\n") {
+			nl = "\r\n"
+		}
+		n := rapid.IntRange(300, 700).Draw(rt, label+"n")
+		var b strings.Builder
+		b.WriteString(nl + "func deformMany() {" + nl)
+		for i := 0; i < n; i++ {
+			b.WriteString("\tdeformSink()" + nl + nl)
+		}
+		b.WriteString("}" + nl)
+		// and blank lines around the statements of the file itself
+		lines := strings.SplitAfter(src, "\n")
+		for i, l := range lines {
+			if strings.HasPrefix(l, "\t") && !strings.HasPrefix(l, "\t\t") && strings.HasSuffix(strings.TrimSpace(l), ")") && rapid.IntRange(0, 2).Draw(rt, fmt.Sprintf("%sgap%d", label, i)) == 0 {
+				lines[i] = nl + l + nl
+			}
+		}
+		return strings.Join(lines, "") + b.String()
+	}},
 	{"import-to-group", func(rt *rapid.T, src, label string) string {
 		// import "x"  ->  import ( "x" )  on one line, spaced oddly
 		return pickLines(rt, src, label, func(l string) bool { return strings.HasPrefix(l, "import \"") },
